@@ -25,14 +25,16 @@ CHECKS = {
                      "saying for which input/regularisation every stored artefact was computed; TLC explores every reachable state (all call histories of "
                      "any length) and checks that whatever is served is current. The models are bound to the code in both directions: every call of "
                      "TLC-generated API histories (exhaustive up to length 3, random walks of length 9, from SolverAPI.tla) is replayed on the real "
-                     "objects and compared with a fresh object (the property's own oracle, plain and ASan/UBSan builds), and the private state logged "
+                     "objects and compared with a fresh object (the property's own oracle, plain and ASan/UBSan builds); the general class Adj (gama-g3) is taken "
+                     "through histories solve / set_algorithm / set(input) / other query orders on every LsqCases problem and compared with fresh "
+                     "objects; and the private state logged "
                      "after every call is validated as a behaviour of the models by TLC; every MoveToFront transition is replayed on the template.",
                 note="trusted: the abstraction (ghost tags instead of numbers), sanitizers. Network objects: LocalNetModel.tla gives the flag "
                      "transition of every public operation of LocalNetwork (queries, update_*, set_algorithm, m0 type, confidence, a priori m0, "
                      "remove_huge_abs_terms, refine_adjustment); histories up to length 4 (5) over three networks are replayed by "
                      "harness/drv_localnet, every answer is compared with a fresh object given the same configuration and content, and the flags "
                      "logged through VerifProbe are validated by TraceLocalNet.tla", ref="8/C04"),
-    "C11": dict(cat="model_checking", technique="TLC model checking of grammar x parser-automaton product + replay of all emitted documents under ASan/UBSan + mutation sweep",
+    "C11": dict(cat="model_checking", technique="TLC model checking of grammar x parser-automaton products (GKFparser, DataParser table extracted from the sources) + replay of all emitted documents / transitions under ASan/UBSan + mutation sweep",
                 text="(1) GkfModel.tla: product of the documented element grammar and a transcription of GKFparser's (state, tag) automaton, model "
                      "checked by TLC (Inclusion, ErrorHasLine, StopOnlyAtEnd, Completeness, Exactness up to named deviations, ErrorAbsorbing); every "
                      "event sequence up to the bound is materialised and parsed by gama-local under ASan+UBSan: verdict and error line must be the "
@@ -40,9 +42,13 @@ CHECKS = {
                      "independent of its neighbours. (3) GkfAttrs.tla: the attribute schema of every element (type, required) x ways of corrupting one "
                      "or two elements (missing, bad number, text, empty, bad enumeration value, unknown attribute, value outside its domain): refused at "
                      "the line of the first corrupted element, or accepted under the named deviations D1-D3; 5 384 documents in the quick tier. (4) "
-                     "deterministic mutation / truncation sweep of repository inputs. ",
+                     "deterministic mutation / truncation sweep of repository inputs. (5) G3Parser.tla: the control table of DataParser (gama-g3 input and "
+                     "results, adj-input-data), extracted from the init() calls of the working tree on every run, model checked exhaustively (Located, "
+                     "ErrorAbsorbing, ErrorNeverAccepted, Nesting, NoNullHandler, StopIsRoot, ZeroIsError, consistency of the table); every transition "
+                     "is rendered as a document and replayed on the real parser chunk by chunk (states, error flag, diagnostic line, outcome; plain and "
+                     "ASan/UBSan builds). ",
                 note="trusted: ASan/UBSan/timeouts as observers of memory safety and termination; expat for well-formedness errors; attribute-level "
-                     "and literal-level grammar, chunked delivery and the g3 / results parsers are in the thorough tier only as far as implemented", ref="8/C11"),
+                     "and literal-level grammar, chunked delivery is checked for GKFparser; handlers of DataParser with semantic checks may refuse earlier than the control model (counted in the evidence); the adjustment-results reader is covered by the mutation sweep and C12", ref="8/C11"),
     "C06": dict(cat="exploration", technique="TLC-generated survey sessions (SurveySession.tla) replayed on gama-local; truth law adjusted = generating coordinates",
                 text="SurveySession.tla builds networks from 12 templates (intersections, traverse, trilateration, polar 3-D, vectors, levelling, free "
                      "stations, free networks, mixed vector / slope-distance network) in all axes conventions and circle orientations, with observation "
@@ -161,7 +167,9 @@ CHECKS = {
                      "matrix, column graph, connectivity (reachability), normal matrix and exact rank; harness/drv_sparse checks SparseMatrix "
                      "build/transpose/replicate, SparseMatrixGraph adjacency and connected(), that the RCM ordering is a permutation with consistent "
                      "inverse, that the envelope holds the permuted normal matrix (no non-zero outside the profile), that cholDec gives exactly zero "
-                     "pivots for dependent unknowns (defect = n - rank) and L D L' = N, that solve() and the sparse inverse satisfy N x = r and NQN = N. "
+                     "pivots for dependent unknowns (defect = n - rank) and L D L' = N, that solve() and the sparse inverse satisfy N x = r and NQN = N. BlockDiag.tla enumerates symmetric positive definite band blocks B = U'U "
+                     "together with their exact integer Cholesky factor U (in-band zeros, zeros followed by non-zeros in a pivot row): BlockDiagonal "
+                     "add_block / replicate / cholDec are compared element by element, alone and in two-block layouts. "
                      "The block-diagonal Cholesky is checked through the homogenised normal equations of C01/C02 (incl. wide band blocks).",
                 note="sizes up to 4x4; values are small integers so that rank is numerically unambiguous", ref="8/C16"),
     "C19": dict(cat="exploration", technique="TLC-generated ECEF networks run through gama-g3 (4 algorithms, permuted records) and their project equations through Adj",
